@@ -50,9 +50,10 @@ type subtable struct {
 }
 
 type synthCase struct {
-	Subtables  []subtable     `json:"subtables"`     // sorted by (platform, encoding) as the specification requires
-	FontPage   uint16         `json:"font_page"`     // OS/2 font page argument of ProcessCmap
-	OS2        *os2Spec       `json:"os2,omitempty"` // OS/2 table of the font built around the cmap table
+	Subtables  []subtable     `json:"subtables"`      // sorted by (platform, encoding) as the specification requires
+	FontPage   uint16         `json:"font_page"`      // OS/2 font page argument of ProcessCmap
+	OS2        *os2Spec       `json:"os2,omitempty"`  // OS/2 table of the font built around the cmap table
+	Font       *fontSpec      `json:"font,omitempty"` // the other tables of that font (scan sequences)
 	Exhaustive bool           `json:"exhaustive"`
 	Disc       *disc          `json:"discrepancy,omitempty"`
 	Count      map[string]int `json:"discrepancy_counts,omitempty"`
